@@ -172,19 +172,19 @@ LEVEL_TEXT = {
         "Tie: timing scripts against the real server over TCP.",
  "C17": "Theorems: (start,count) are decoded in wire order; the answer is exactly the concatenation of the 2048-byte user-data slices at 24+(start+k)*S, closing iff a sector is cut short (after the correct prefix), nothing for count 0; detection returns the first candidate whose sector 16 carries either signature, for each of the 7 sizes. "
         "Tie: synthesised images with an independent slice oracle.",
- "C07": "Theorems: in every well-formed image each file's extent holds exactly the file's bytes followed by zeros to the sector end (any size), reading the extent returns them, files up to 4 GiB-1 get one record with the exact size, larger files get contiguous 0xFFFFF800-byte extents flagged multi-extent plus an unflagged remainder whose lengths sum to the size, portable names are preserved (upper-cased in the primary hierarchy). "
+ "C07": "Theorems: every image the model's build produces is well-formed (build_wf, for every tree) and in every well-formed image each file's extent holds exactly the file's bytes followed by zeros to the sector end (any size), reading the extent returns them, files up to 4 GiB-1 get one record with the exact size, larger files get contiguous 0xFFFFF800-byte extents flagged multi-extent plus an unflagged remainder whose lengths sum to the size, portable names are preserved (upper-cased in the primary hierarchy). "
         "Tie: byte-exact differential against the Lean image + independent ISO reader comparing both hierarchies with the source tree.",
  "C08": "Theorems: size = volume space size x 2048, pad rule (granule 0x20), both-endian agreement for every value, record length byte = encoded size <= 255 because identifiers are cut to fit, no record straddles a sector (gap rule), directory extents are whole sectors, L/M path table entries agree, descriptor headers (1/2/255, CD001, version 1), PS3 sector 0/1 contents. "
         "Tie: byte-exact model image + strict independent validator on the implementation's bytes.",
- "C09": "Theorem (no bound on sizes): for every well-formed image, every offset and every length, read = slice of the one canonical byte string (metadata ++ padded files ++ pad area); corollaries: progress min(n, size-off), EOF after the end, any Read/Seek/ReadAt sequence observes the same as on the canonical string, sequential chunked reads concatenate, Seek arithmetic. "
-        "Tie: op sequences at structural boundaries against the library view; WF evaluated per explored image.",
+ "C09": "Theorems (no bound on sizes): build_wf - for every world, root and mode the built image is well-formed (metadata exactly as long as the layout arithmetic assumed, files in consecutive runs, pad area); for every well-formed image, every offset and every length, read = slice of the one canonical byte string (metadata ++ padded files ++ pad area); corollaries: progress min(n, size-off), EOF after the end, any Read/Seek/ReadAt sequence observes the same as on the canonical string, sequential chunked reads concatenate, Seek arithmetic. "
+        "Tie: op sequences at structural boundaries against the library view; the executable WF check is still evaluated per explored image as a cross-check.",
  "C18": "Theorems: layout (files, sizes, pad area, total) is a function of tree and mode only; a descriptor depends on the clock only through its two 17-byte timestamp fields; the system area depends on the random filler only through its 0x1C0-byte field (not at all without PS3 mode); everything else in the metadata is a function of the layout. "
         "Tie: every image is built again later and concurrently and compared masked.",
  "C10": "Theorems, parametric in the sector cipher: for every table, content, offset and length the view's read equals the slice of the one reference plaintext (sector rule: stored outside gaps, D(stored) for complete sectors in gaps), so any Read/Seek/ReadAt/chunking observes the same bytes; tables are accepted iff 2..255 regions, first at 0, each non-empty, starts not before previous ends; short/huge tables rejected; header clearing zeroes exactly the table. "
         "Tie: differential incl. unaligned reads against a crypto/aes reference decryptor; the Lean AES instance is validated by it.",
  "C11": "Theorems on the FS.OpenFile decision chain: no key lookup unless .iso (any case) below ps3iso (any case); adjacent key wins, REDKEY only as fallback, a malformed/unreadable key fails the open (no fallback); watermark test incl. short files; the 3k3y mask zeroes exactly [0xF70,0x1070) for any read range (pointwise); everything else, directories and write opens get no wrapper. "
         "Tie: the full product of layouts (exhaustive in thorough) against an independent decision table.",
- "C20": "Theorems: a copy loop with any chunk sizes over a source whose reads are slices writes exactly that slice, hence make-iso output = the canonical image of C09 (the bytes the server announces and serves); decrypt output = h zero bytes ++ reference plaintext from h on (C10); a blanked watermark area is never recognised as 3k3y again (served back unchanged); the output-file decision never selects 'create' for an existing path and '-' is stdout. "
+ "C20": "Theorems: a copy loop with any chunk sizes over a source whose reads are slices writes exactly that slice, hence, for every tree (build_wf), make-iso output = the canonical image of C09 (the bytes the server announces and serves); decrypt output = h zero bytes ++ reference plaintext from h on (C10); a blanked watermark area is never recognised as 3k3y again (served back unchanged); the output-file decision never selects 'create' for an existing path and '-' is stdout. "
         "Tie: the real binary's files and stdout against the model and the crypto/aes reference, pre/post state of existing targets, served-back comparison.",
  "C04": "Logic proved, runtime observed. Theorems on `Model/Checked.lean` (the Go index/slice arithmetic transcribed over Int with the runtime's bounds checks explicit): VirtualISO.read never faults for ANY image, member contents, offset >= 0 and buffer length (no well-formedness needed); clearRegionsData, every sector visited by decryptData for any read position/length/region, and clear3k3yData stay in bounds; the region-table allocation is at most 255 entries whatever count the file declares and index 0 is only touched on a non-empty table; directory-record and path-table size computations agree for every identifier the generator can make (no 'size mismatch' panic), the volume identifier and product id fit their fields, gameCode[:4] is guarded for every PARAM.SFO content; READ_CD offsets cannot overflow int64. "
         "Tie: hostile worlds predicted by the model in-process; process survival, liveness, bystander integrity, tool exits, descriptor and memory limits observed on the real binary.",
